@@ -435,8 +435,10 @@ def to_coq(case, obs):
         chobs.append('(Build_chobs %s %s %s %s %s %s %s %s)' % (
             g_chan(c), g_oq(o['sint']), g_oq(o['sini']), g_oq(o['sfin']), gQ(F(o.get('rint', 0))), gQ(F(o.get('r0', 0))),
             gQ(F(o.get('rlate', 0))), g_list(gQ(F(x)) for x in o.get('pad', []))))
-    return '(CPulse %s %s %s %s %s %s %s)' % (g_pt(case['pt'], nm), rho, g_oq(obs['sdur']), g_real(obs['real']),
-                                              g_list(chobs), gQ(F(case.get('pad', '2'))), g_real(obs.get('padded', 'none')))
+    return '(CPulse %s %s %s %s %s %s %s %s)' % (g_pt(case['pt'], nm), rho, g_oq(obs['sdur']), g_real(obs['real']),
+                                                 g_list(chobs), gQ(F(case.get('pad', '2'))),
+                                                 g_real(obs.get('padded', 'none')),
+                                                 'false' if case.get('src') == 'malformed' else 'true')
 
 
 # ---------------------------------------------------------------------------------------------------------------------
